@@ -614,6 +614,15 @@ func c02GenInput(r *rand.Rand, size int) *c02Input {
 		}
 		svcs.Set(n, g.service(n, names, res, ce, ""))
 	}
+	// the tracker key clash of DESIGN §10 #9 in its order-dependent form (C05's finding): db@main → web@main →
+	// db@base.yaml → b0@base.yaml is acyclic, but (file, extending name) repeats for `db`
+	if len(canExtend) > 0 && nsvc >= 2 && g.coin(14) {
+		baseSvcs := getKey(in.Trees["base.yaml"].(*om), "services").(*om)
+		baseSvcs.Set("db", M("image", "alpine", "extends", "b0", "hostname", "from-base"))
+		svcs.KV[0].V.(*om).Set("extends", M("file", "base.yaml", "service", "db"))
+		svcs.KV[1].V.(*om).Set("extends", "web")
+		g.shape("extends-key-clash")
+	}
 	// a service disabled by a profile, optionally depended upon
 	if g.coin(3) {
 		off := g.service("tools", nil, res, nil, "")
@@ -633,6 +642,32 @@ func c02GenInput(r *rand.Rand, size int) *c02Input {
 			}
 		}
 		g.shape("disabled-dependency")
+	}
+	// a chain with two siblings at its end (r0 ← m0 ← two of the services), each adding its own entries to a list merged by
+	// appending (seed C02-1: a "clone" that shares the backing array of the base's list makes the siblings overwrite
+	// each other's entry, depending on the order they are resolved in)
+	if nsvc >= 2 && g.coin(6) {
+		svcs.Set("r0", M("image", "alpine", "expose", []any{"1000", "1001"}, "cap_drop", []any{"A"}))
+		svcs.Set("m0", M("extends", "r0", "expose", []any{"2000"}, "cap_drop", []any{"B", "C"}))
+		for i := 0; i < 2; i++ {
+			sv := svcs.KV[i].V.(*om)
+			sv.Set("extends", "m0")
+			sv.Set("expose", []any{fmt.Sprintf("30%d0", i)}) // one entry: it fits into the spare capacity left by m0's append
+			sv.Set("cap_drop", []any{"S" + strconv.Itoa(i)})
+		}
+		g.shape("extends-siblings-lists")
+	}
+	// a short-form depends_on list inherited through `extends` and refined per dependency by the extending service (seed
+	// C02-2: one default entry shared by every key of the list makes all dependencies take the values of whichever key
+	// is merged last)
+	if nsvc >= 3 && g.coin(6) {
+		svcs.Set("dbase", M("image", "alpine", "depends_on", []any{names[0], names[1]}))
+		last := svcs.KV[nsvc-1].V.(*om)
+		last.Set("extends", "dbase")
+		last.Set("depends_on", M(
+			names[0], M("condition", "service_healthy"),
+			names[1], M("condition", "service_completed_successfully", "restart", true)))
+		g.shape("depends_on-list-refined")
 	}
 	main.Set("services", svcs)
 	if len(res.Networks) > 0 {
@@ -756,9 +791,23 @@ func c02GenInput(r *rand.Rand, size int) *c02Input {
 	if g.coin(4) {
 		in.Profiles = []string{g.pick("dev", "tools", "debug", "*")}
 	}
-	// malformed stream: one defect injected into an otherwise valid model — the outcome (an error) must be as
-	// stable as a success
-	if size > 0 && g.coin(7) {
+	// a file that carries `version:` (so that it goes through the package-level versionWarning state) and whose ONLY
+	// defect is a schema violation that nothing else in the pipeline would notice: if anything process-global decided
+	// whether validation runs, the first and the later loads of this file would end differently
+	if size == 2 {
+		first := svcs.KV[0].V.(*om)
+		switch g.r.Intn(3) {
+		case 0:
+			first.Set("security_opt", []any{"label=x", "label=x"}) // uniqueItems
+		case 1:
+			first.Set("stop_signal", 9) // must be a string; decodes weakly otherwise
+		default:
+			first.Set("domainname", true)
+		}
+		main.Set("version", g.pick("3.9", "2.4"))
+		g.shape("version")
+		g.shape("schema-only-violation+version")
+	} else if size > 0 && g.coin(7) {
 		first := svcs.KV[0].V.(*om)
 		last := svcs.KV[len(svcs.KV)-1].V.(*om)
 		switch g.r.Intn(9) {
@@ -1007,6 +1056,8 @@ func errSite(msg string) string {
 	switch {
 	case strings.Contains(msg, "dependency cycle detected"), strings.Contains(msg, "depends on unknown service"), strings.Contains(msg, "but is disabled"):
 		return "graph.newGraph"
+	case strings.Contains(msg, "Circular reference"):
+		return "loader.cycleTracker"
 	}
 	// class = the message with quoted names, paths, service/resource names and numbers removed
 	s := regexp.MustCompile(`"[^"]*"|'[^']*'|\$ROOT\S*|[0-9]+`).ReplaceAllString(msg, "_")
@@ -1332,7 +1383,11 @@ func runC02Oracle(ctx *core.Ctx) {
 	n := ctx.Pick(24, 400)
 	inputs := ctx.Pick(80, 500)
 	for i := 0; i < inputs; i++ {
-		in := c02GenInput(ctx.Rng, 1)
+		size := 1
+		if i%8 == 5 {
+			size = 2
+		}
+		in := c02GenInput(ctx.Rng, size)
 		base := in.files(nil)
 		a := c02LoadArgs{Req: in.req(base), N: n}
 		if i%5 != 0 { // the thorough tier spends N=400 on every fifth input only, 40 on the others
@@ -1349,6 +1404,12 @@ func runC02Oracle(ctx *core.Ctx) {
 		for k := ctx.Rng.Intn(3); k > 0 || (a.Fresh && len(a.Prefix) == 0); k-- {
 			p := c02GenInput(ctx.Rng, ctx.Rng.Intn(2))
 			a.Prefix = append(a.Prefix, p.req(p.files(nil)))
+		}
+		if size == 2 {
+			// … and an earlier, valid load of a file with `version:` at the very same path
+			pv := c02GenInput(ctx.Rng, 0)
+			pv.Trees["compose.yaml"].(*om).Set("version", "3.8")
+			a.Prefix = append(a.Prefix, pv.req(pv.files(nil)))
 		}
 		for _, s := range in.Shapes {
 			ctx.Count("load-shape-" + s)
